@@ -24,10 +24,10 @@ from __future__ import annotations
 
 import copy
 import hashlib
+import os
 import random
 
 import torch
-from tensordict import TensorDict
 
 from .. import envs as E
 from ..kernel import HarnessError, StopRun, Streams
@@ -39,8 +39,6 @@ POLICY = {"kopt2": "DACTPolicy", "kopt3": "NeuOptPolicy", "kopt4": "NeuOptPolicy
 
 
 def _only(names):
-    import os
-
     only = os.environ.get("RLSIM_ONLY")
     if not only:
         return list(names)
@@ -89,6 +87,12 @@ def _hand_row(variant, n, rc):
     return {"locs": t}
 
 
+def _seed(s: int):
+    """Seed the CPU generator only (torch.manual_seed also queues CUDA/XPU seeding, which formats a
+    stack trace per call: ~1.5 ms)."""
+    torch.default_generator.manual_seed(int(s))
+
+
 def _fingerprint(td) -> str:
     h = hashlib.blake2b(digest_size=12)
     for k in sorted(td.keys()):
@@ -132,6 +136,9 @@ class C09:
                        "two_opt_whole_cycle", "pdp_first_eq_second", "init:greedy", "init:random"]
     excluded = [["N2SPolicy", "pdp_ruin_repair", "num_loc=2: with a single pickup-delivery pair the policy "
                  "masks the pair it removed last and has no candidate left (degenerate size)"],
+                ["N2SPolicy", "pdp_ruin_repair", "num_loc=4 with the environment in eval() mode: action_record "
+                 "then has num_loc/2 = 2 history rows while the removal decoder reads the last 3 (MLP input "
+                 "7 instead of 8); train-mode environments keep num_loc+1 rows and are exercised"],
                 ["DACTPolicy", "tsp_kopt k_max>2", "asserts two_opt_mode"],
                 ["NeuOptPolicy", "tsp_kopt k_max=2", "asserts not two_opt_mode"]]
     CANARIES = {}
@@ -159,15 +166,16 @@ class C09:
             cfg = {"env": "tsp_kopt", "kw": {"k_max": int(variant[-1])}, "gen": {"num_loc": n}}
         cfg["gen"]["init_sol_type"] = rc.choice(["random", "greedy"])
         m = rc.randint(2, 3)
-        torch.manual_seed(st.torch_seed("env"))
+        _seed(st.torch_seed("env"))
         env = _make_env(cfg)
-        torch.manual_seed(st.torch_seed("instances"))
+        _seed(st.torch_seed("instances"))
         rows = E.td_rows(env.generator(batch_size=[m]))
         ri = st.get("instance")
         for j in range(m):
             if rc.random() < 0.3:
                 rows[j] = _hand_row(variant, n, ri)
         b = rc.choice([1, 1, 2, 2, 3, 4])
+        b = max(b, int(os.environ.get("RLSIM_MIN_B", "1")))   # debugging aid, like RLSIM_ONLY
         sel = [rc.randrange(m) for _ in range(b)]
         mirror = False
         if cfg["gen"]["init_sol_type"] == "greedy" and b >= 2 and rc.random() < 0.4:
@@ -192,9 +200,12 @@ class C09:
         snapshot = None
         if rc.random() < 0.6:
             snapshot = {"after_improving": rc.randint(1, 3)}
+        env_eval = rc.random() < 0.5
+        if variant == "pdp_rr" and n < 6 and any(s["source"] == "policy" for s in segs):
+            env_eval = False   # see `excluded`: N2S reads the last 3 rows of action_record
         return {"variant": variant, "cfg": cfg, "instances": [E.enc_row(r) for r in rows], "rows": sel,
                 "mirror": mirror, "segments": segs, "snapshot": snapshot,
-                "env_eval": rc.random() < 0.5,
+                "env_eval": env_eval,
                 "policy": {"embed_dim": rc.choice([32, 64]), "layers": rc.choice([1, 2]), "heads": rc.choice([2, 4])}}
 
     @staticmethod
@@ -343,8 +354,6 @@ def _check_rows(run, env, plan, td, rows, t, phase, source, first=False):
         if row.improved_last and cc_all[r] > cb_all[r] + I.tol(cb_all[r], gs):
             run.probe("improve_then_worsen")
             run.nontrivial = True
-        if abs(ln_c - led.lengths[-2]) <= 1e-9 and rec_c != rc_prev_placeholder(row):
-            pass
         row.improved_last = improved
         row.bsf_prev = cb_all[r]
     # ---- the built-in checker accepts rec_best -------------------------------------------------------
@@ -363,10 +372,6 @@ def _check_rows(run, env, plan, td, rows, t, phase, source, first=False):
                       row=r, **base)
 
 
-def rc_prev_placeholder(row):
-    return None
-
-
 def _last_action(td, r):
     try:
         return td["action"][r].tolist()
@@ -382,7 +387,7 @@ def _propose(run, env, pol, plan, td, seg, t, rows):
     src = seg["source"]
     if src == "mask":
         if v == "kopt2":
-            with run.guard(scope, "get_mask"):
+            with run.guard(scope, "get_mask", B=B):
                 m = env.get_mask(td)
             acts = []
             for r in range(B):
@@ -398,7 +403,7 @@ def _propose(run, env, pol, plan, td, seg, t, rows):
             h = gs // 2
             pairs = [run.chooser.pick(h) for _ in range(B)]
             sel = torch.tensor(pairs, dtype=torch.long).view(B, 1)
-            with run.guard(scope, "get_mask"):
+            with run.guard(scope, "get_mask", B=B):
                 m = env.get_mask(sel + 1, td)
             acts = []
             for r in range(B):
@@ -413,13 +418,13 @@ def _propose(run, env, pol, plan, td, seg, t, rows):
             a = torch.tensor(acts, dtype=torch.long)
         kind = "action"
     elif src == "random":
-        torch.manual_seed(run.streams.torch_seed(f"move{t}"))
-        with run.guard(scope, "_random_action"):
+        _seed(run.streams.torch_seed(f"move{t}"))
+        with run.guard(scope, "_random_action", B=B):
             a = env._random_action(td).clone()
         kind = "action"
     elif src == "policy":
-        torch.manual_seed(run.streams.torch_seed(f"move{t}"))
-        with run.guard(scope, f"{POLICY[v]}.forward", decode=seg["decode"]):
+        _seed(run.streams.torch_seed(f"move{t}"))
+        with run.guard(scope, f"{POLICY[v]}.forward", decode=seg["decode"], B=B):
             with torch.no_grad():
                 out = pol(td, env, phase="test", decode_type=seg["decode"])
         a = out["actions"].clone()
@@ -442,9 +447,9 @@ def _apply(run, env, plan, td, kind, a, phase):
     scope = SCOPE[plan["variant"]]
     if kind == "action":
         td.set("action", a.clone())
-        with run.guard(scope, f"step ({phase})", action=a.tolist()):
+        with run.guard(scope, f"step ({phase})", action=a.tolist(), B=int(a.shape[0])):
             return env.step(td)["next"]
-    with run.guard(scope, f"step_to_solution ({phase})"):
+    with run.guard(scope, f"step_to_solution ({phase})", B=int(a.shape[0])):
         return env.step_to_solution(td, a.clone())
 
 
@@ -459,19 +464,19 @@ def _execute(run):
     B = len(sel)
     run.stats["runs:" + scope] += 1
     run.probe("init:" + cfg["gen"]["init_sol_type"])
-    torch.manual_seed(run.streams.torch_seed("env"))
+    _seed(run.streams.torch_seed("env"))
     with run.guard(scope, "construct env"):
         env = _make_env(cfg)
     if plan.get("env_eval"):
         env.eval()
     pol = None
     if any(s["source"] == "policy" for s in plan["segments"]):
-        torch.manual_seed(run.streams.torch_seed("policy"))
+        _seed(run.streams.torch_seed("policy"))
         with run.guard(scope, f"construct {POLICY[v]}"):
             pol = _make_policy(plan)
         run.stats["policy:" + POLICY[v]] += 1
     batch = E.stack_rows([{k: x.clone() for k, x in insts[i].items()} for i in sel])
-    torch.manual_seed(run.streams.torch_seed("reset"))
+    _seed(run.streams.torch_seed("reset"))
     with run.guard(scope, "reset", B=B):
         td = env.reset(batch)
     rows = [_Row(_coords(v, insts[i]), td["rec_current"][r].tolist(), pdp) for r, i in enumerate(sel)]
@@ -632,7 +637,7 @@ def _step_variant(flavor):
         if "action_record" in td.keys():
             action_record = td["action_record"]
             if solution_to is None:
-                action_record[:, :-1] = action_record[:, 1:]
+                action_record[:, :-1] = action_record[:, 1:].clone()
                 action_record[:, -1] *= 0
                 action_record[torch.arange(bs), -1, action[:, 0]] = 1
             upd["action_record"] = action_record
